@@ -2,8 +2,9 @@
    The definitions (Model/C09.v) are the ones the correspondence evaluates against partitura on
    every run: make_segments = add_segments/_make_segments, get_paths/unfold = get_paths/unfold_paths
    with Path.list_of_destinations_from_last_segment and Path.make_copy_with_jump_to,
-   variant = ScoreVariant.create_variant_part, id_suffix = update_note_ids_after_unfolding. *)
-From PV Require Import Lib.Base Model.C09 Proofs.C09 Proofs.C09_simple Proofs.C09_segs Proofs.C09_variant.
+   variant = ScoreVariant.create_variant_part, id_suffix = update_note_ids_after_unfolding,
+   variant_qd = the quarter durations create_variant_part sets. *)
+From PV Require Import Lib.Base Model.C09 Proofs.C09 Proofs.C09_simple Proofs.C09_segs Proofs.C09_variant Proofs.C09_clip Proofs.C09_qd.
 From Coq Require Import ZArith List Bool.
 Import ListNotations.
 #[local] Open Scope Z_scope.
@@ -49,9 +50,10 @@ Theorem no_structure_single_path : forall g ign fuel nr ar, simple_table g [fals
 Proof. exact Proofs.C09_simple.no_structure_single_path. Qed.
 Print Assumptions no_structure_single_path.
 
-(* a part without navigation marks has exactly one segment first..last going to END (all first < last) *)
+(* a part without navigation marks has exactly one segment first..last going to END (all first < last);
+   being the first segment it is a leap destination wherever the part starts *)
 Theorem no_marks_segments : forall first last, first < last ->
-  exists ty, make_segments (mkMarks first last [] [] [] [] [] [] [] []) = [mkSeg 0 first last [END] [] ty].
+  make_segments (mkMarks first last [] [] [] [] [] [] [] []) = [mkSeg 0 first last [END] [] TLEAP_END].
 Proof. exact no_marks_segments_lemma. Qed.
 Print Assumptions no_marks_segments.
 
@@ -80,23 +82,41 @@ Theorem volta_unfolding : forall l ign, In l volta_layouts ->
 Proof. exact volta_unfolding_lemma. Qed.
 Print Assumptions volta_unfolding.
 
+(* FINITE domain: the 63 of these layouts that start the piece (head 0), written WITHOUT any repeat sign
+   (the endings repeat from the beginning), with the part starting at time 0 or 5: same reading *)
+Theorem volta_from_start : forall l first ign, In l volta_layouts -> vl_head l = 0 -> In first [0; 5] ->
+  let g := make_segments (vl_marks_nosigns first l) in
+  single_path_measures g (get_paths FUEL g false true ign) = Some (map (Z.add first) (vl_reference true l)) /\
+  single_path_measures g (get_paths FUEL g true false ign) = Some (map (Z.add first) (vl_reference false l)).
+Proof. exact volta_from_start_lemma. Qed.
+Print Assumptions volta_from_start.
+
 (* ---- O1/O2 variant construction, all object lists and all visit lists (induction) ---- *)
 
 (* every object of the variant is the copy, shifted by (offset - segment start), of an original
-   object of a visited segment, with the same class and attributes (pitch, voice, staff) *)
+   object of a visited segment, with the same class and attributes (pitch, voice, staff); its end is
+   the shifted end, clamped to the length of the unfolded part *)
 Theorem variant_origin : forall objs vs n, In n (variant objs vs) ->
-  exists v, In v (with_off vs 0 0) /\ origin objs v n.
+  exists v, In v (with_off vs 0 0) /\ origin_c objs (total_len vs) v n.
 Proof. exact variant_origin_lemma. Qed.
 Print Assumptions variant_origin.
 
 (* the notes/rests/grace notes are exactly the shifted copies per visit, in visit order
-   (list equality, hence the multiset statement) *)
+   (list equality, hence the multiset statement), ends clamped to the length of the unfolded part *)
 Theorem variant_notes : forall objs vs,
-  notes_of (variant objs vs) = expected_notes objs vs 0 0.
+  notes_of (variant objs vs) = map (clip_view (total_len vs)) (expected_notes objs vs 0 0).
 Proof. exact variant_notes_lemma. Qed.
 Print Assumptions variant_notes.
 
+(* ... and with unchanged durations when no note sounds beyond the end of its segment *)
+Theorem variant_notes_contained : forall objs vs,
+  Forall (fun v => fst v <= snd v) vs -> notes_contained objs vs ->
+  notes_of (variant objs vs) = expected_notes objs vs 0 0.
+Proof. exact variant_notes_contained_lemma. Qed.
+Print Assumptions variant_notes_contained.
+
 Theorem identity_notes : forall objs first last,
+  first <= last -> notes_contained objs [(first, last)] ->
   notes_of (variant objs [(first, last)]) =
   map (note_copy (0 - first)) (filter (fun ob => in_seg first last ob && is_notecls (o_cls ob)) objs).
 Proof. exact identity_notes_lemma. Qed.
@@ -123,23 +143,49 @@ Theorem variant_positions : forall objs vs n,
 Proof. exact variant_positions_lemma. Qed.
 Print Assumptions variant_positions.
 
-(* length = sum of the visited segments' lengths, when no copied object sticks out of its segment
-   (the boundary of known finding C09-K1) and objects mark the first start and the last end *)
+(* no copy ends after the sum of the visited segments' lengths (all object lists, all visit lists) *)
+Theorem variant_ends : forall objs vs n x,
+  In n (variant objs vs) -> n_end n = Some x -> x <= total_len vs.
+Proof. exact variant_ends_lemma. Qed.
+Print Assumptions variant_ends.
+
+(* length = sum of the visited segments' lengths: with an object at the first start and one ending
+   at the last end the variant spans exactly [0, total_len] (no containment hypothesis any more:
+   ends are clamped, the former known finding C09-K1 is repaired) *)
 Theorem variant_length : forall objs s0 e0 mid sl el o0 o1,
   let vs := (s0, e0) :: mid ++ [(sl, el)] in
-  Forall (fun v => fst v <= snd v) vs -> contained objs vs ->
+  Forall (fun v => fst v <= snd v) vs ->
   In o0 objs -> is_skip (o_cls o0) = false -> is_sigcls (o_cls o0) = false -> o_start o0 = s0 -> s0 < e0 ->
   In o1 objs -> is_skip (o_cls o1) = false -> is_sigcls (o_cls o1) = false -> in_seg sl el o1 = true -> o_end o1 = Some el ->
   (exists n, In n (variant objs vs) /\ n_start n = 0) /\
   (exists n, In n (variant objs vs) /\ n_end n = Some (total_len vs)) /\
   (forall n, In n (variant objs vs) -> 0 <= n_start n <= total_len vs) /\
-  (forall n x, In n (variant objs vs) -> n_extra n = false -> n_end n = Some x -> x <= total_len vs).
+  (forall n x, In n (variant objs vs) -> n_end n = Some x -> x <= total_len vs).
 Proof. exact variant_length_lemma. Qed.
 Print Assumptions variant_length.
 
-(* the boundary: with an object sticking out of the last visited segment the length claim fails
-   in the model exactly as in the implementation (known finding C09-K1) *)
-Theorem variant_length_refuted_without_containment :
-  exists objs vs n x, In n (variant objs vs) /\ n_extra n = false /\ n_end n = Some x /\ total_len vs < x.
-Proof. exact variant_length_refuted_lemma. Qed.
-Print Assumptions variant_length_refuted_without_containment.
+(* ids suffixed with the visit number: the copy of a note made in visit k gets 1 + the number of
+   earlier visits whose segment contains the note (distinct original ids) *)
+Theorem id_suffix_visit_number : forall objs vs k s e off o n,
+  NoDup (map o_id objs) -> Forall (fun v => fst v <= snd v) vs ->
+  In (k, s, e, off) (with_off vs 0 0) -> In o objs -> is_pitched (o_cls o) = true -> in_seg s e o = true ->
+  n_id n = o_id o -> n_cls n = o_cls o -> n_start n = o_start o + (off - s) ->
+  id_suffix (variant objs vs) n =
+  1 + Z.of_nat (length (filter (fun v => visit_before k v && visit_holds o v) (with_off vs 0 0))).
+Proof. exact id_suffix_visit_number_lemma. Qed.
+Print Assumptions id_suffix_visit_number.
+
+(* division changes inside repeated or skipped sections: at every position of every visit the
+   divisions per quarter in force in the unfolded part are those in force at the original position *)
+Theorem variant_qd_inforce : forall d tbl vs k s e off t,
+  times_sorted tbl -> Forall (fun v => fst v <= snd v) vs ->
+  In (k, s, e, off) (with_off vs 0 0) -> s <= t < e ->
+  qd_at d (variant_qd d tbl vs) (off + (t - s)) = qd_at d tbl t.
+Proof. exact variant_qd_inforce_lemma. Qed.
+Print Assumptions variant_qd_inforce.
+
+(* the normal form under which the correspondence compares tables of quarter durations / signature
+   changes keeps the value in force at every time *)
+Theorem qnorm_inforce : forall tbl d t, times_sorted tbl -> qd_at d (qnorm tbl) t = qd_at d tbl t.
+Proof. exact qnorm_inforce_lemma. Qed.
+Print Assumptions qnorm_inforce.
